@@ -299,6 +299,19 @@ let check_line (line : string) : unit =
         let nk = (let v = param "next" in if v = "" || v.[0] = 'r' then 'd' else v.[0]) in
         check_trace "TN" nk tr false;
         if get "PN" <> "-" then oracle "next_dispatch" 0;
+        (* C14/C04: "as if nothing had happened": in that next dispatch every system at every depth starts exactly as often
+           as one dispatch of its kind makes it run (systems inside batches: once per planned inner dispatch) *)
+        (let want = Hashtbl.create 32 in
+         let rec walk (rs : reg list) (m_sys : int) (m_tl : int) =
+           List.iter (fun r -> match r with
+               | RSys (t, _, _, _, _, _) -> Hashtbl.replace want (int_of_n t) m_sys
+               | RTL t -> Hashtbl.replace want (int_of_n t) m_tl
+               | RBatch (t, _, _, _, _, _, cnt, inner) -> Hashtbl.replace want (int_of_n t) m_sys; walk inner (m_sys * int_of_n cnt) (m_sys * int_of_n cnt)
+               | RBarrier -> ()) rs in
+         walk regs 1 (if nk = 'd' then 1 else 0);
+         let got = Hashtbl.create 32 in
+         List.iter (fun r -> if r.k = 'F' then Hashtbl.replace got r.tag (1 + try Hashtbl.find got r.tag with Not_found -> 0)) tr;
+         if Hashtbl.fold (fun t w bad -> bad || (try Hashtbl.find got t with Not_found -> 0) <> w) want false then oracle "next_dispatch" 0);
         let probe = get "probeN" in
         if probe <> "-" && String.exists (fun c -> c <> '0') probe then oracle "probe_free" 0
       end;
